@@ -343,6 +343,25 @@ func checkC10(p *core.Program, r *core.Report) {
 		})
 	}
 	r.Floor(R4, 1)
+	// ... and Shutdown sets that flag before it closes anything: closing a connection triggers a re-announce and a
+	// fresh mDNS report, which starts new dials for queued SKIs as long as the flag is not set
+	if sd := p.Method("hub", "Hub", "Shutdown"); sd != nil {
+		isSet := func(in ssa.Instruction) bool {
+			f, b, v := core.StoredField(in)
+			return f != nil && b != nil && core.NamedOf(b.Type()) == a.hub && isBoolConst(v, true)
+		}
+		mClose := p.IfaceMethod("api", "ShipConnectionInterface", "CloseConnection")
+		mMdnsSd := p.IfaceMethod("api", "MdnsInterface", "Shutdown")
+		isTearDown := func(in ssa.Instruction) bool {
+			return (mClose != nil && core.IsInvokeOf(in, mClose)) || (mMdnsSd != nil && core.IsInvokeOf(in, mMdnsSd))
+		}
+		key := "Shutdown sets the flag before it tears anything down"
+		if bad := core.PathSearch(sd, nil, isTearDown, isSet, nil); bad != nil {
+			r.Fail(R4, key, p.Pos(bad.Pos()), "Shutdown closes connections / stops mDNS on a path on which the shut-down flag is not set yet: every closed connection makes the hub re-announce and look at the known mDNS entries again, and the dial gate still lets those attempts through")
+		} else {
+			r.OK(R4, key, p.Pos(sd.Pos()), "flag first")
+		}
+	}
 	// R6 / R7: what is dialled is the registered service; trust is written by the user operations only
 	const R6 = "C10.R6 dialled-service-is-the-registered-one"
 	const R7 = "C10.R7 trust-writers"
@@ -356,6 +375,9 @@ func checkC10(p *core.Program, r *core.Report) {
 	importRules(p, r, "C18", map[string]string{"C18.R3 one-total-mapping": R8}, func(key string) bool {
 		return strings.Contains(key, "maps to Queued") || strings.Contains(key, "mapping total")
 	})
+	const R9 = "C10.R9 unregister-finds-the-live-connection"
+	r.Rule(R9, "a closing connection removes the registry entry only if the entry is its own (shared with C11.R3): otherwise the end of a superseded connection unregisters the surviving one, and a later unregister / disconnect cannot close it")
+	importRules(p, r, "C11", map[string]string{"C11.R3 registry-identity-atomic": R9}, nil)
 	// R5
 	n := checkSKINormalised(p, r, R5, map[string]bool{"RegisterRemoteSKI": true, "UnregisterRemoteSKI": true, "DisconnectSKI": true, "CancelPairingWithSKI": true})
 	if n < 4 {
